@@ -358,6 +358,7 @@ type VerifInfo struct {
 	LeadTransferee   uint64
 	Applying         uint64
 	Inflights        map[uint64]VerifInflight
+	Votes            map[uint64]bool // votes recorded by a (pre-)candidate; do not modify
 }
 
 type VerifInflight struct {
@@ -374,7 +375,7 @@ func (rn *RawNode) VerifInfo() VerifInfo {
 	vi := VerifInfo{ElectionElapsed: r.electionElapsed, PendingMsgs: r.msgs, PendingAfterApp: r.msgsAfterAppend,
 		UnstableEnts: len(r.raftLog.unstable.entries), UnstableSnap: r.raftLog.unstable.snapshot != nil,
 		UncommittedSize: uint64(r.uncommittedSize), PendingConfIndex: r.pendingConfIndex, LeadTransferee: r.leadTransferee,
-		Applying: r.raftLog.applying, Inflights: map[uint64]VerifInflight{}}
+		Applying: r.raftLog.applying, Inflights: map[uint64]VerifInflight{}, Votes: r.trk.Votes}
 	for id, pr := range r.trk.Progress {
 		c, b, l := pr.Inflights.VerifStats()
 		vi.Inflights[id] = VerifInflight{Count: c, Bytes: b, LastBytes: l, State: pr.State, Paused: pr.IsPaused(), Pending: pr.PendingSnapshot}
